@@ -31,6 +31,11 @@ func (c *Cast) Init(n *onnx.NodeProto) error {
 
 	attr := attributes[0]
 	if attr.GetName() == "to" {
+		// A target that does not fit the 32-bit type code must not wrap around to a valid one.
+		if attr.GetI() != int64(int32(attr.GetI())) {
+			return ops.ErrInvalidAttribute(attr.GetName(), c)
+		}
+
 		c.to = int32(attr.GetI())
 	} else {
 		return ops.ErrInvalidAttribute(attr.GetName(), c)
